@@ -12,7 +12,7 @@ use std::cell::{Cell, OnceCell, RefCell};
 use std::collections::BTreeMap;
 use std::marker::PhantomData;
 use std::rc::Rc;
-pub type FHashMap<K, V> = BTreeMap<K, V>;
+//@include shim/vecmap.rs
 pub type SpanId = u32;
 #[derive(Clone, Copy, PartialEq, Eq, PartialOrd, Ord, Debug)]
 pub struct InternedStr<'p>(pub u8, pub PhantomData<&'p ()>);
